@@ -116,6 +116,7 @@ func reverseCriteriaForEachAlternative(
 	resParams *model.DecisionMakingParams,
 ) (*[]model.AlternativeWithCriteria, *[]model.Weights) {
 	allAlternatives := resParams.AllAlternatives()
+	updatedAlternatives := make([]model.AlternativeWithCriteria, len(allAlternatives))
 	alternativesValues := make([]model.Weights, len(*criteriaToReverse))
 	for i := range alternativesValues {
 		alternativesValues[i] = make(model.Weights, len(allAlternatives))
@@ -128,9 +129,9 @@ func reverseCriteriaForEachAlternative(
 			alternativesValues[ic][a.Id] = newValue
 			(*newCriteria)[c.criterion.Id] = newValue
 		}
-		allAlternatives[i] = *a.WithCriteriaValues(newCriteria)
+		updatedAlternatives[i] = *a.WithCriteriaValues(newCriteria)
 	}
-	return &allAlternatives, &alternativesValues
+	return &updatedAlternatives, &alternativesValues
 }
 
 func (p *PreferenceReversal) getCriterionValueRange(originalParams *model.DecisionMakingParams, referenceCriterion *model.Criterion) *utils.ValueRange {
